@@ -54,6 +54,11 @@ class Contract:
     def ghost0(self, A):
         return {}
 
+    def elem_preds(self, A):
+        """[(VL term, predicate)]: element-wise preconditions on sequence parameters ("every element satisfies P").
+        Used as hypotheses on the elements the body iterates over; at call sites each becomes an obligation."""
+        return []
+
     # ---- derived: summary used at call sites (modular: callers see only this)
     def param_names(self, en):
         node, _ = en.T.functions[self.key]
@@ -94,6 +99,22 @@ class Contract:
         st1 = st1.copy(env=st.env)
         for (label, g) in self.pre(A, st1):
             en.oblige(st1, f"call:{self.key.split('::')[1]}:pre:{label}", g)
+        for ep in self.elem_preds(A):
+            seq, pred = ep[0], ep[1]
+            if len(ep) > 2:
+                if en.fork(st1, ep[2]) is None:
+                    continue
+                guard = ep[2]
+                pred = (lambda x, pred=pred, guard=guard: z3.Implies(guard, pred(x)))
+            xs = concrete_list(seq)
+            if xs is not None:
+                for i, x in enumerate(xs):
+                    en.oblige(st1, f"call:{self.key.split('::')[1]}:pre:elem{i}", pred(x))
+            elif any(z3.simplify(t).eq(z3.simplify(seq)) and p2 is ep[1] for (t, p2) in st1.elem_preds):
+                pass
+            else:
+                k = z3.Int('ek_')
+                en.oblige(st1, f"call:{self.key.split('::')[1]}:pre:all_elems", z3.ForAll([k], z3.Implies(z3.And(k >= 0, k < length(seq)), pred(nth(seq, k)))))
         st2 = self.havoc_frame(en, st1, A)
         outs = []
         r = fresh('ret')
@@ -179,8 +200,10 @@ def verify(contract, registry, tier='quick', mutate=None):
             env[node.args.kwarg.arg] = A.get(node.args.kwarg.arg, SX.KwBundle({}, None))
         for k, v in getattr(contract, 'extra_env', lambda en, A: {})(en, A).items():
             env[k] = v
-        st = st.copy(env=env, ghost=dict(contract.ghost0(A)))
+        st = st.copy(env=env, ghost=dict(contract.ghost0(A)), elem_preds=tuple((ep[0], (ep[1] if len(ep) < 3 else (lambda x, ep=ep: z3.Implies(ep[2], ep[1](x))))) for ep in contract.elem_preds(A)))
         pre = [g for (_, g) in contract.pre(A, st)]
+        if hasattr(contract, 'pre_body'):
+            pre += [g for (_, g) in contract.pre_body(A, st)]
         st0 = st.assume(*pre)
         # vacuity guard: precondition satisfiable
         r = solve.check(st0.conds, z3.BoolVal(False), timeout_ms=5000)
